@@ -440,8 +440,30 @@ def pd_concat(I, parts, **kw):
     return out
 
 
-def pd_date_range(I, *a, **kw):
-    raise Unsupported('pd.date_range')
+def pd_date_range(I, start=None, end=None, freq=None, tz=None, **kw):
+    """A4.  Tick (fixed-length) frequency: p_k = start + k*delta for all k with p_k <= end.
+    Anchored / calendar frequency: some strictly increasing sequence inside [start, end] (nothing more).
+    Which of the two applies is a case flag of the contract under proof (I.flags['date_range'])."""
+    if not isinstance(start, TS) or not isinstance(end, TS):
+        raise Unsupported('date_range without start/end timestamps')
+    kind = getattr(I, 'flags', {}).get('date_range', 'tick')
+    tzres = tz if tz is not None else start.tz
+    m = z3.Int(fresh_name('dr_m'))
+    s0, e0 = lift(start.t), lift(end.t)
+    if kind == 'tick':
+        d = freq_ns(I, freq)
+        I.assume(z3.Implies(s0 <= e0, z3.And(m >= 1, s0 + (m - 1) * d <= e0, e0 < s0 + m * d)))
+        I.assume(z3.Implies(s0 > e0, m == 0))
+        out = Arr(m, lambda k: TS(s0 + lift(k) * d, tzres), kind='dtindex')
+    else:
+        pf = z3.Function(fresh_name('dr_p'), z3.IntSort(), z3.IntSort())
+        i, j = z3.Int(fresh_name('dr_i')), z3.Int(fresh_name('dr_j'))
+        I.assume(m >= 0)
+        I.assume(z3.ForAll([i], z3.Implies(z3.And(i >= 0, i < m), z3.And(s0 <= pf(i), pf(i) <= e0)), patterns=[pf(i)]))
+        I.assume(z3.ForAll([i, j], z3.Implies(z3.And(i >= 0, i < j, j < m), pf(i) < pf(j)), patterns=[z3.MultiPattern(pf(i), pf(j))]))
+        out = Arr(m, lambda k: TS(pf(lift(k)), tzres), kind='dtindex')
+    out.tz = tzres
+    return out
 
 
 def pd_to_datetime(I, v, **kw):
